@@ -5,6 +5,13 @@ import json, os
 V = os.path.dirname(os.path.dirname(os.path.abspath(__file__)))
 TB = "pyvc (symbolic executor, numpy shim, mirror loader) and z3/cvc5 are trusted; float64 treated as exact reals; external libraries (numpy kernels beyond the shim's definitional semantics, scipy, qhull, rtree, networkx, shapely) are assumed contracts"
 CLAIMED = {
+    "C01": dict(
+        category="proof",
+        text="Representation-invariant proof of the cache protocol: the mirrored source of caching.Cache and cache_decorator is run from every abstract pre-state satisfying INV (entries tagged with the data version they were computed from; id_function injective) for every protocol method, with and without an intervening data change: INV is preserved and every read returns Spec_k(D_current), i.e. values are history-independent; id_set/__exit__/update/direct stores/locks are classified as the only bypass primitives. An AST inventory of the whole package must find exactly the 41 contracted sites that use a bypass primitive or store a claimed value (a new site is a failed obligation). Effect inference over the AST shows each of the 65 cached properties of Trimesh/Geometry3D reads only tracked data, derived properties or immutable configuration (no visuals, metadata, attributes, RNG). The transport obligations of the sites (values deliberately kept across apply_transform, invert, update_faces/vertices, process, copy ...) are a bounded stand-in: read -> mutate -> read on real meshes compared with a freshly built mesh, 6 meshes x 30 mutators x 27 pre-read sets x ~60 keys.",
+        design_ref="DESIGN.md §4 C01",
+        note="assumed: C02 (hash reflects bytes) and T5; effect inference assumes no computed attribute names/exec (E); site transport obligations are bounded, not proved; ray/proximity structures are covered only through their dependency on the data hash.",
+        technique="contract-based verification of a representation invariant (abstract-state enumeration over the mirrored Cache source, AST bypass-site inventory, AST effect inference) + bounded history template on the real classes",
+    ),
     "C02": dict(
         category="proof",
         text="Inductive invariant `not dirty => stored hash = H(bytes)` over an abstract machine whose transitions are numpy mutation routes (35 routes x 5 alias configurations) and whose hook bodies are the contracts of the real TrackedArray methods, themselves discharged on every run by executing the verbatim class text on a ghost base (each of the 27 overridden mutators sets the dirty flag before delegating; __array_finalize__ dirties self and a tracked parent; __hash__ recomputes when dirty and caches only when clean). The numpy dispatch table is regenerated from the installed numpy each run and model/real agreement is enforced. 147 (route, alias) obligations fail today and are the four recorded known findings; any other failing obligation is a violation replayed on the real class.",
